@@ -1,25 +1,39 @@
 from props import P
 
 CFG = P(
-        harness=["harness/C05.cc"], harness_deps=["harness/C04_jsonref.hh"],
+        harness=["harness/C05.cc", "harness/C05_r2.cc"], harness_deps=["harness/C05_common.hh", "harness/C04_jsonref.hh"],
         srcs=["JSON.cc", "Strings.cc", "Filesystem.cc", "Process.cc", "Time.cc", "Encoding.cc"],
         oracle="C05", flags=[],
-        deadline={"quick": 900, "thorough": 5400},
-        rule="a case is one input text given to all three entry points in both modes (6 parses, counted as transitions) from an exact-size heap block; it is non-trivial when at least one "
-             "of the six calls returned a value or the reference recognises a complete value at the start of the text (everything else is rejected at once by both). Texts are distinct within a "
-             "section by construction (odometer over the alphabet; distinct derivations / truncation lengths / edit positions).",
+        deadline={"quick": 900, "thorough": 10800},
+        rule="a case is (a) one input text given to a set of entries x {default, strict} from exact-size heap blocks - the core set is the three entry points (6 parses); the full set adds the three "
+             "overloads with the mode argument defaulted, a reader positioned at offset 10 of a larger buffer and a sub-reader over a window of a larger buffer (13 parses); the contexts section "
+             "adds readers built by the other StringReader constructors and offset 1 (19 parses); every parse is a transition - or (b) one history of 2-3 parse calls / one repeated-call history / "
+             "one stream of 2-4 values read from one reader. A text case is non-trivial when at least one call returned a value or the reference recognises a complete value at the start of the "
+             "text (everything else is rejected at once by both); history and stream cases are all non-trivial (every call is compared with the memoryless reference). Texts are distinct within a "
+             "section by construction (odometer over the alphabet; distinct derivations / truncation lengths / edit positions / template fillings); histories are distinct step tuples.",
         bounds={
-            "quick": "bytes16: all 1 118 481 byte strings of length <=5 over the 16 symbols { } [ ] , : \" \\ / 0 1 - . e n LF; grammar: all RFC 8259 derivations up to 5 tokens over 47 atoms/12 keys and "
-                     "6-7 tokens over 10 atoms/4 keys, 3 whitespace renderings, every truncation, 11 delimiter/junk suffixes; ext: each of those documents rewritten with each documented extension; "
-                     "mutate: every single-byte insertion/substitution/deletion (28 symbols) at every position of a 68-document corpus; deep: nesting 499/500 (lists, dictionaries, mixed, padded, "
-                     "extension forms), every truncation of the three 500-deep documents, 501/600 deep for totality; all x {default, strict} x {StringReader, ptr+size, std::string}",
+            "quick": "bytes16: all 1 118 481 byte strings of length <=5 over the 16 symbols { } [ ] , : \" \\ / 0 1 - . e n LF (length <=4 through the full entry set); grammar: all RFC 8259 derivations "
+                     "up to 5 tokens over 47 atoms/12 keys and 6-7 tokens over 10 atoms/4 keys, 3 whitespace renderings, every truncation, 11 delimiter/junk suffixes; ext: each of those documents "
+                     "rewritten with each documented extension; mutate: every single-byte insertion/substitution/deletion (28 symbols) at every position of a 68-document corpus; deep: nesting exactly "
+                     "499/500 (lists, dictionaries, alternating, padded, extension forms), every truncation of the three 500-deep documents, 501 (list, dictionary, alternating) and 600 deep for "
+                     "totality; allbytes: every byte value 0x00-0xFF in the hole of 46 templates (raw in strings and keys, after a backslash, \\u digits, token start, between tokens, after the value, in "
+                     "comments, in numbers) and every ordered pair of byte values in 4 templates (string content, bare text, \\u00XY, key); bounds: integers 2^k-1, 2^k, 2^k+1 (k = 0..64, both signs) in "
+                     "10 spellings x 4 placements, numbers of 15..400 digits in 23 shapes, exponents 0..999999, strings/keys of 0..65536 bytes x 6 contents, whitespace runs and comments of 1..65536 "
+                     "bytes at every position, lists of 0..65536 and dictionaries of 0..4096 elements; hist: every ordered pair and every A-B-A history over 376 steps (66 texts x 3 entry points x 2 "
+                     "modes), every ordered triple over 96 steps, same buffer address and std::string object for every call; soak: each of the 376 steps repeated 20 000 times (200 for 500-deep texts) "
+                     "then all 184 accepted steps, 2 round-robin histories of 40 rounds; contexts: 111 texts x {8 calling contexts, 6 errno values} x 11 entries; streams: every sequence of 2-3 values "
+                     "out of 14 x 7 separators x 2 modes read from one reader; all x {default, strict}",
             "thorough": "bytes16 up to length 6 (17.9 M strings); bytes28: all strings of length <=5 over the full 28-symbol alphabet (17.9 M); grammar/ext over all derivations up to 7 tokens with the "
-                        "full atom set and 8-9 tokens with the reduced one; mutate with 44 symbols; deep as quick",
+                        "full atom set and 8-9 tokens with the reduced one (truncations of documents beyond the quick bound through the core entry set); mutate with 44 symbols; deep as quick; allbytes "
+                        "with 12 two-hole templates; bounds plus 65535/65537-element and 65537-byte sizes; hist: ordered triples over all 366 non-deep steps (49 M histories); soak: 200 000 repetitions "
+                        "(2 000 for deep texts), 400 round-robin rounds; streams of up to 4 values",
         },
-        explanation="E-ENUM over input texts; one oracle for every text: reference models R_std (RFC 8259) and R_ext (R_std + the four extensions documented in JSON.hh) from harness/C04_jsonref.hh "
-                    "decide whether the text is standard, extension-only, value+trailing-data or don't-care; exceptions other than JSON::parse_error / std::out_of_range, wrong values, strict-mode "
-                    "acceptance of extensions, accepted trailing data and wrong reader extents are violations; ASan on exact-size buffers decides 'reads nothing outside the input'. Every text of "
-                    "the quick-tier families is replayed through Python json.loads by oracles/C05.py to bind R_std.",
+        explanation="E-ENUM over input texts, call histories and calling contexts; one memoryless oracle (c05::Judge) for every call: reference models R_std (RFC 8259) and R_ext (R_std + the four "
+                    "extensions documented in JSON.hh) from harness/C04_jsonref.hh decide whether the text is standard, extension-only, value+trailing-data or don't-care; exceptions other than "
+                    "JSON::parse_error / std::out_of_range, wrong values, strict-mode acceptance of extensions, accepted trailing data and wrong reader extents are violations; ASan on exact-size "
+                    "buffers (and a poisoned buffer tail in histories) decides 'reads nothing outside the input', and a reader whose buffer continues before/after the text must behave exactly like the "
+                    "reader over the exact copy. Histories, soak, contexts and streams apply the same oracle to every call, so any dependence on earlier calls, thread, errno or calling context is a "
+                    "violation of the same key family. Every text of the text families is replayed through Python json.loads by oracles/C05.py to bind R_std.",
         assumptions=[
             "don't-care beyond totality (executed, result not compared): texts neither R_std nor R_ext accepts (the library may be lenient: leading zeros, '+', raw control characters, \\x escapes, "
             "bare '-', 1. and the like); integers outside int64; fraction/exponent numbers that are not finite normal doubles; \\u escapes above U+00FF; duplicate keys; nesting above 500; "
@@ -27,19 +41,27 @@ CFG = P(
             "int/float kind of the parsed number is not compared (the statement asks for the value): an integer literal must come back exactly, a fraction/exponent literal to relative 1e-9",
             "reader-extent and trailing-data rules are applied only when the byte after the value is end of text, whitespace, ',', ']' or '}' (so the token boundary is unambiguous)",
             "strict-mode rejection of an extension is checked on the string entry points as 'throws'; on the reader entry point as 'throws or stops before the end of the extension construct'",
-            "texts containing an exponent of 7 or more digits are classified and bound to Python but not executed (outside double range; the parser's exponent loop is linear in the exponent value, "
-            "up to 2^31 iterations - it terminates, in seconds)",
+            "texts containing an exponent of 7 or more significant digits are classified and bound to Python but not executed (outside double range; the parser's exponent loop is linear in the "
+            "exponent value, up to 2^31 iterations - it terminates, in seconds)",
             "documented extensions are read from JSON.hh: trailing commas, hexadecimal integers (-?0x[0-9A-Fa-f]+), n/t/f, // comments up to end of line; nothing else is required of default mode",
+            "the overloads called without the mode argument must behave as default mode (JSON.hh: extensions 'are enabled by default')",
+            "a call's result must not depend on earlier calls, on the thread, on ambient errno or on the C++ calling context (the statement quantifies over byte strings x modes x entry points only); "
+            "histories are bounded: 2-3 calls, or one step repeated 20 000 (thorough 200 000) times; calling contexts: plain, catch handler, destructor during (nested) unwinding, noexcept frame, "
+            "std::function, second thread; signal handlers, coroutines, static destruction and locales other than C are not covered (no other locale is installed on this machine)",
+            "the parser makes no system calls, so EINTR / short reads / file-vs-pipe do not apply; 'partly consumed stream' is a StringReader positioned after a prefix or after earlier values",
             "Python binding: texts decoded as latin-1, NaN/Infinity refused via parse_constant; json.loads is trusted as the independent RFC 8259 reader",
         ],
         engine="E-ENUM",
-        technique="exhaustive enumeration of byte strings, grammar derivations, truncations and single-edit mutants through all three parse entry points in both modes on the real parser under ASan, "
-                  "against RFC 8259 / documented-extension reference recognisers bound to Python json",
+        technique="exhaustive enumeration of byte strings, grammar derivations, truncations, single-edit mutants, byte-value fillings, boundary-size documents, call histories, calling contexts and "
+                  "value streams through all parse entry points in both modes on the real parser under ASan, against RFC 8259 / documented-extension reference recognisers bound to Python json",
         level_text="Every byte string over the stated alphabet up to the length bound, every derivation of the JSON grammar up to the token bound (with every truncation and delimiter/junk suffix), "
-                   "every extension rewrite and every single-byte edit of the corpus is parsed by the code compiled from the repository through all three entry points in default and strict mode, from "
-                   "exact-size unterminated heap buffers under AddressSanitizer. Totality (only documented exceptions, no out-of-bounds read), standard conformance with reference values, strict-mode "
-                   "rejection of each documented extension, trailing-data rejection and reader extent are decided for each text. Within the bounds this is a coverage statement, not a sample.",
-        level_note="Trusted: the reference recognisers R_std/R_ext in harness/C04_jsonref.hh (R_std is bound to Python json.loads on every text of the quick-tier families, count in "
-                   "traces_validated_against_impl); AddressSanitizer for bounds. Not covered: texts longer than the length bound that are not grammar-generated or single edits of the corpus; "
-                   "termination is observed per case with a 120-180 s stall watchdog, not proved.",
+                   "every extension rewrite, every single-byte edit of the corpus, every byte value in every syntactic position of the templates, and every boundary-size document is parsed by the "
+                   "code compiled from the repository through all three entry points (explicit and defaulted mode argument, readers at an offset and over a window) in default and strict mode, from "
+                   "exact-size unterminated heap buffers under AddressSanitizer. Every ordered pair / A-B-A / triple of calls over the step set, every long repetition, every calling context and every "
+                   "value stream inside the stated bounds is executed and each call compared with the memoryless reference. Totality (only documented exceptions, no out-of-bounds read), standard "
+                   "conformance with reference values, strict-mode rejection of each documented extension, trailing-data rejection and reader extent are decided for each call. Within the bounds this "
+                   "is a coverage statement, not a sample.",
+        level_note="Trusted: the reference recognisers R_std/R_ext in harness/C04_jsonref.hh (R_std is bound to Python json.loads on every text of the text families, count in "
+                   "traces_validated_against_impl); AddressSanitizer for bounds. Not covered: texts longer than the length bound that are not grammar-generated, template fillings, boundary documents or "
+                   "single edits of the corpus; histories longer than the stated bounds; termination is observed per case with a 120-300 s stall watchdog, not proved.",
     )
